@@ -23,7 +23,7 @@ import (
 const addrA, addrB = "127.0.0.1:1001", "127.0.0.1:1002"
 
 type params struct {
-	fault string // cut | refuse | restart | badframe | first-contact (two senders use the peer for the first time at once; the first j dials are refused)
+	fault string // fin (the established connection is ended cleanly, EOF on both ends, while both systems stay up) | cut | refuse | restart | badframe | first-contact (two senders use the peer for the first time at once; the first j dials are refused)
 	j     int    // cut offset / number of refused dials / bad frame kind
 	j2    int    // second fault: cut offset on the second connection (-1 none)
 	limit int    // reconnect limit
@@ -126,6 +126,17 @@ func scenario(p params, bounds []int) *vexp.Scenario {
 			}
 			s1 := wa.Ref("/s1")
 			switch p.fault {
+			case "fin":
+				wa.Sys.Tell(s1, vsys.Msg{ID: "go"})
+				settle()
+				for _, c := range nw.Conns {
+					if c.Client {
+						c.Fin()
+					}
+				}
+				settle()
+				wa.Sys.Tell(s1, vsys.Msg{ID: "go"})
+				settle()
 			case "idle":
 				// no fault at all: two bursts two minutes apart (longer than any handshake deadline or idle timer)
 				wa.Sys.Tell(s1, vsys.Msg{ID: "go"})
@@ -284,7 +295,7 @@ func scenario(p params, bounds []int) *vexp.Scenario {
 				}
 			}
 			switch p.fault {
-			case "cut", "refuse", "restart":
+			case "cut", "refuse", "restart", "fin":
 				// the last burst was sent while the peer was reachable
 				last := sent[len(sent)-p.n:]
 				for li, s := range last {
@@ -374,6 +385,7 @@ func build(tier string) []*vexp.Scenario {
 	}
 	for _, limit := range []int{0, 1, 3} {
 		out = append(out, scenario(params{"idle", 0, -1, limit, 2}, []int{0, 1}))
+		out = append(out, scenario(params{"fin", 0, -1, limit, 2}, []int{0, 1}))
 	}
 	for j := 0; j <= 1; j++ {
 		j := j
